@@ -479,6 +479,24 @@ def check_ms_clone(chk, F):
             chk.fail(rid, "Miniscript::clone|" + v, "clone panics: %s" % p, F.fns[clonep]["span"])
         except Unsupported as e:
             chk.fail(rid, "Miniscript::clone|%s|unanalysable" % v, "unanalysable: %s" % e, kind="unanalysable")
+    # Terminal has its own hand-written Clone (the node alone, children cloned through Miniscript::clone)
+    try:
+        tclone = impl_method(F, T, "std::clone::Clone", "clone")
+    except KeyError as e:
+        chk.fail(rid, "Terminal::clone", "missing anchor %s" % e, kind="unanalysable")
+        return
+    chk.saw(tclone)
+    for v in model.variants(F):
+        t = distinct_children(mk_term(F, v, n=3, k=2))
+        try:
+            c = m.call_path(tclone, [t])
+            good = isinstance(c, Adt) and c.path == T and strip(c) == strip(t)
+            chk.obligation(rid, good, "Terminal::clone|" + v, "Terminal::clone of a %s node yields %r" % (v, c),
+                           F.fns[tclone]["span"], detail={"original": repr(t), "clone": repr(c)})
+        except Panic as p:
+            chk.fail(rid, "Terminal::clone|" + v, "clone panics: %s" % p, F.fns[tclone]["span"])
+        except Unsupported as e:
+            chk.fail(rid, "Terminal::clone|%s|unanalysable" % v, "unanalysable: %s" % e, kind="unanalysable")
 
 
 def strip(t):
